@@ -3322,7 +3322,22 @@ impl<Front: SocketHandler> ConnectionH2<Front> {
                 "IoSlice refs must be cleared before consume"
             );
             debug.push(DebugEvent::SocketIO(debug_site, global_stream_id, size));
+            // `Kawa::consume` compacts its storage once more than half of it is
+            // spent and re-bases the slices it knows to be live: those of `out`.
+            // It was written for converters that turn every block into `out`
+            // before anything is written. The H2 converter stops at the edge of
+            // the flow-control window, and leaves in `blocks` the rest of the
+            // chunk it split there and everything behind it: these slices must
+            // follow the move too, or they point at bytes the next backend read
+            // overwrites (seen as wrong bytes in the middle of a response body).
+            let end_before = kawa.storage.end;
             kawa.consume(size);
+            let moved = end_before - kawa.storage.end;
+            if moved > 0 {
+                for block in kawa.blocks.iter_mut() {
+                    block.push_left(moved as u32);
+                }
+            }
             position.count_bytes_out_counter(size);
             position.count_bytes_out(metrics, size);
             if let Some(counter) = bytes_written.as_deref_mut() {
